@@ -113,7 +113,7 @@ class IndxIO(object):
             offset=offset,
         )
         ptr = 0
-        for length, coords in zip(lengths, all_coords):
+        for length, coords in zip(lengths.tolist(), all_coords):
             rowids = rowid_lists[ptr : ptr + length]
             ptr += length
             # For now, force uint32 everywhere.
